@@ -16,8 +16,8 @@ ASSUME = ["E3: std HashMap modelled as a finite association per map object and a
 KIND = {"counter": 0, "gauge": 1, "histogram": 2}
 
 
-def mk_engine(P):
-    m = dict(models_map.MAP_MODELS)
+def mk_engine(P, abstract_maps=True):
+    m = dict(models_map.MAP_MODELS) if abstract_maps else {}
     m.update({
         r"Mutex::lock$": lambda eng, ctx, f, path, args, dty: Enum(0, {0: Agg({0: args[0]})}, "Result"),
         r"^Result::unwrap_or_else$": lambda eng, ctx, f, path, args, dty: sym_payload(eng, ctx, args[0]),
@@ -25,12 +25,16 @@ def mk_engine(P):
         r"Clock::now$": lambda eng, ctx, f, path, args, dty: ctx.statics["now"],
         r"Generation as PartialEq>::eq$": lambda eng, ctx, f, path, args, dty: eng.load_ptr(ctx, args[0]).f[0] == eng.load_ptr(ctx, args[1]).f[0],
         r"Instant as Sub>::sub$": lambda eng, ctx, f, path, args, dty: args[0] - args[1],
-        r"Duration as PartialOrd>::gt$": lambda eng, ctx, f, path, args, dty: z3.UGT(eng.load_ptr(ctx, args[0]), eng.load_ptr(ctx, args[1])),
+        r"Duration as PartialOrd>::gt$": lambda eng, ctx, f, path, args, dty: _gt(eng.load_ptr(ctx, args[0]), eng.load_ptr(ctx, args[1])),
         r"as Clone>::clone$": lambda eng, ctx, f, path, args, dty: eng.load_ptr(ctx, args[0]),
         r"Registry::delete_(counter|gauge|histogram)$": m_delete,
     })
     m.update(models.BASE)
     return sym.Engine(P, models=m)
+
+
+def _gt(a, b):
+    return a > b if z3.is_int(a) else z3.UGT(a, b)
 
 
 def sym_payload(eng, ctx, r):
@@ -206,14 +210,133 @@ def two_kinds_history(e3):
     return out
 
 
+def history(e3, kinds):
+    """A usage history on one key, independent of how Recency lays out its bookkeeping: Recency::new(clock, mask, timeout), then one
+    observation per step of the metric of the given kind. Between observations the metric received u_i in {0,1,2} updates and dt_i time
+    passed; a metric that was dropped is registered again before its next observation (generation restarts at the number of updates).
+    Reference (the property): an observation drops the metric iff the kind is covered and the metric is unchanged since an earlier
+    observation of it made more than the timeout ago; everything else is kept."""
+    P = _e3.program(["metrics-util"])
+    eng = mk_engine(P, abstract_maps=False)       # std HashMap by the general keyed-container model (concrete entries, symbolic contents)
+    eng.models[r"Mutex::new$"] = models.m_identity
+    name = "c12_history_" + "".join(k[0] for k in kinds)
+    n = len(kinds)
+    bodies = {k: P.find("Recency", f"should_store_{k}") for k in KIND}
+    new_b = P.find("Recency", "new")
+    # instants, durations and generations as mathematical integers (exact: the values are bounded far below 2^64, nothing wraps)
+    mask, has_timeout, timeout = z3.BitVec("mask", 8), z3.Bool("has_timeout"), z3.Int("timeout")
+    upd = [z3.Int(f"updates{i}") for i in range(n)]
+    dt = [z3.Int(f"dt{i}") for i in range(n)]
+    bv = z3.IntVal
+    assume = [z3.And(u >= 0, u <= 2) for u in upd] + [z3.And(d >= 0, d < (1 << 40)) for d in dt] + [timeout >= 0, timeout < (1 << 40), z3.ULE(mask, 7)]
+    now = []
+    t = bv(0)
+    for i in range(n):
+        t = t + dt[i]
+        now.append(t)
+    # reference model + the generation each observation presents (depends on the reference's own drops: a dropped metric is re-registered)
+    ref_ret, gens = [], []
+    st = {k: (z3.BoolVal(False), bv(0), bv(0)) for k in KIND}          # tracked?, generation at the last change seen, time of that observation
+    cur = {k: bv(0) for k in KIND}                                      # current generation of the live metric
+    for i, k in enumerate(kinds):
+        bit = {"counter": 1, "gauge": 2, "histogram": 4}[k]
+        covered = z3.And(has_timeout, (mask & bit) != 0)
+        g = cur[k] + upd[i]
+        gens.append(g)
+        tracked, lg, lt = st[k]
+        unchanged = z3.And(tracked, lg == g)
+        drop = z3.And(covered, unchanged, now[i] - lt > timeout)
+        ref_ret.append(z3.Not(drop))
+        fresh = z3.And(covered, z3.Not(unchanged))
+        st[k] = (z3.If(drop, z3.BoolVal(False), z3.Or(tracked, covered)), z3.If(fresh, g, lg), z3.If(fresh, now[i], lt))
+        cur[k] = z3.If(drop, bv(0), g)
+
+    def script():
+        r = yield ("call", new_b, [Opaque("clock"), Agg({0: mask}), Enum(z3.If(has_timeout, z3.BitVecVal(1, 64), z3.BitVecVal(0, 64)), {1: Agg({0: timeout})}, "Option")])
+        yield ("setstatic", "recency", r)
+        yield ("setstatic", "del_result", z3.BoolVal(True))
+        rets = []
+        for i, k in enumerate(kinds):
+            yield ("setstatic", "now", now[i])
+            r = yield ("call", bodies[k], [Ptr(("static", "recency")), Ptr(("static", "key")), Agg({0: gens[i]}), Native("registry", None)])
+            rets.append(r)
+        return rets
+    ctx0 = sym.Ctx(eng, 1)
+    ctx0.statics = {"key": Native("key", 1), "now": bv(0), "del_result": z3.BoolVal(True)}
+    eng.max_paths = 4000
+    leaves = eng.run_script(1, name, script, ctx0=ctx0)
+    e3.absorb(eng)
+    done = [l for l in leaves if l.status == "done"]
+    other = z3.Or(*[l.taken() for l in leaves if l.status != "done"] or [z3.BoolVal(False)])
+    wrong = []
+    for l in done:
+        for i in range(n):
+            r = l.ret[i]
+            r = r if z3.is_expr(r) else z3.BoolVal(bool(r))
+            wrong.append(z3.And(l.taken(), r != ref_ret[i]))
+        # a drop is a registry deletion of exactly that kind at exactly that step
+        dels = [(e.guard, pl.get("kind"), e.id) for lab, e, pl in l.obs if lab == "delete"]
+        nd = z3.IntVal(0)
+        for g_, kk, _ in dels:
+            nd = nd + z3.If(g_, 1, 0)
+        want_n = z3.Sum(*[z3.If(rr, 0, 1) for rr in ref_ret]) if n > 1 else z3.If(ref_ret[0], 0, 1)
+        wrong.append(z3.And(l.taken(), nd != want_n))
+    bounds = (f"Recency::new(clock, mask, timeout) then observations of one key as {', '.join(kinds)}; before each: 0..2 updates and any time step; any mask, timeout (or none); "
+              f"a dropped metric is registered again before its next observation; {len(done)} paths")
+    vals = {"mask": mask, "timeout": timeout}
+    for i in range(n):
+        vals[f"upd{i}"] = upd[i]
+        vals[f"dt{i}"] = dt[i]
+
+    def on_model(ob, model):
+        import replay_e3
+        v = {k: model.eval(t_, model_completion=True).as_long() for k, t_ in vals.items()}
+        v["has_timeout"] = int(z3.is_true(model.eval(has_timeout, model_completion=True)))
+        v["n"] = n
+        for i, k in enumerate(kinds):
+            v[f"kind{i}"] = KIND[k]
+        ob.sample = {"scenario": name, "inputs": v}
+        os.makedirs(os.path.join(REPLAYS, "C12"), exist_ok=True)
+        pp = os.path.join(REPLAYS, "C12", name + "." + ob.name.split(":")[1] + ".plan")
+        open(pp, "w").write(replay_e3.plan_text("c12_history", ob.name.split(":")[1], {}, [], v))
+        status, out = replay_e3.run("c12", pp)
+        ob.detail += f" | native replay (c12, real Registry + Recency + mock clock): {status}"
+        ob.sample["native_replay"] = {"status": status, "output": out[-400:]}
+        ob.replay = pp
+        ob.reproduced = status == "reproduced"
+        if not ob.reproduced:
+            ob.status = "error"
+    specs = [dict(name=f"{name}:witness", desc="the history is executable and some metric is dropped", bounds=bounds, cons=assume + [z3.Or(*[l.taken() for l in done] or [z3.BoolVal(False)]), z3.Not(z3.And(*ref_ret))], expect_unsat=False),
+             dict(name=f"{name}:returns", desc="an observation panics", bounds=bounds, cons=assume + [other], expect_unsat=True, on_model=on_model),
+             dict(name=f"{name}:dropped_exactly_when_idle_longer_than_the_timeout", desc="an observation keeps a metric that is unchanged since an earlier observation made more than the timeout ago, drops one that was updated / "
+                  "not idle long enough / of an uncovered kind / freshly re-registered, or deletes the wrong number of registry entries", bounds=bounds, cons=assume + [z3.Or(*wrong)], expect_unsat=True, on_model=on_model)]
+    check.discharge_many(e3.res, specs, 300)
+
+
+_K = {"c": "counter", "g": "gauge", "h": "histogram"}
+HIST_QUICK = [[_K[c] for c in w] for w in ("cccc", "cgcg", "gcgc", "cgcc", "hhh", "chhc", "ghgh")]
+import itertools
+HIST_THOROUGH = [[_K[c] for c in w] for w in ("".join(p) for p in itertools.product("cgh", repeat=4)) if [_K[c] for c in w] not in HIST_QUICK] + [[_K[c] for c in "ccccc"], [_K[c] for c in "cgcgc"]]
+
+
 def run(tier, seed, t0):
     e3 = _e3.E3("C12")
+    for hk in HIST_QUICK + (HIST_THOROUGH if tier == "thorough" else []):
+        try:
+            history(e3, hk)
+        except (sym.Unsupported, KeyError, IndexError) as ex:
+            e3.error("c12_history_" + "".join(k[0] for k in hk), "MIR->SMT encoding of Recency::{new,should_store_*}", ex)
     try:
         for k in KIND:
             one_step_table(e3, k)
         two_kinds_history(e3)
-    except sym.Unsupported as ex:
-        e3.error("c12_recency", "MIR->SMT encoding of Recency::should_store", ex)
+    except (sym.Unsupported, KeyError, IndexError, AttributeError, z3.Z3Exception) as ex:
+        # the decision tables start from an arbitrary *internal* state and therefore depend on the layout of Recency's bookkeeping;
+        # on a tree with another layout they cannot be built (the histories above do not depend on it)
+        o = Obligation("c12_step_tables", "mirsmt", "one observation from an arbitrary internal state (layout-dependent)")
+        o.status, o.detail = "skipped", f"not applicable to this layout of Recency: {type(ex).__name__}: {ex}"
+        e3.res.obligations.append(o)
+        log(f"  [e3] c12_step_tables: skipped ({o.detail[:200]})")
     obs = list(e3.res.obligations)
     obs += kani.run_group("util", HARNESSES, tier, hooks=True)
     finish("C12", tier, seed, obs, t0, ASSUME + ["E3 callee models: " + ", ".join(sorted(e3.models))], sorted(e3.functions) + FUNCS_E1,
